@@ -18,7 +18,12 @@ type Sink struct {
 	// Split makes every Write of more than one byte happen in two steps with a
 	// scheduling point in between (a writer that blocks inside the call).
 	Split bool
-	mu    sync.Mutex // only for free-running (uninstrumented) conformance runs
+	// Gate, when non-nil, stalls the first Write until the gate is closed (a
+	// writer that blocks inside the call while input keeps flowing).  The bytes
+	// are taken only after the stall, as a real device does.
+	Gate   chan struct{}
+	passed bool
+	mu     sync.Mutex // only for free-running (uninstrumented) conformance runs
 }
 
 func (s *Sink) Write(p []byte) (int, error) {
@@ -28,6 +33,10 @@ func (s *Sink) Write(p []byte) (int, error) {
 		s.Buf = append(s.Buf, p...)
 		s.Writes++
 		return len(p), nil
+	}
+	if s.Gate != nil && !s.passed {
+		mcrt.Recv2(s.Gate)
+		s.passed = true
 	}
 	mcrt.Yield("write:" + s.Name)
 	if s.Split && len(p) > 1 {
